@@ -32,7 +32,7 @@ INFO = {
  "C11-2": ("C11", "rekey generates a classic secret when the current secret is deactivated", "a hybridized attribute disabled, update_msk, then rekey of a policy covering it"),
  "C13-2": ("C13", "Dimension::write writes attributes sorted by id (hierarchy order lost)", "a hierarchy whose rank order differs from its id order, round-tripped"),
  "C14-2": ("C14", "ser::read_vec guard rewritten as prefix + len > available (overflow at len = 2^64-1)", "a length prefix replaced by 2^64-1"),
- "C07-2": ("C07", "", ""),
+ "C07-2": ("C07", "Encapsulations::read accepts any flag value other than 1 as 'classic' (flag turned into a bool, error branch removed)", "a classic encapsulation whose flag byte is changed in bits 1..6: it deserializes to the same object and still decapsulates"),
 }
 logs = ""
 for f in ("/var/tmp/seedeval.txt", "/var/tmp/seedeval2.txt", "/var/tmp/seedeval3.txt"):
